@@ -1033,6 +1033,11 @@ class Child(Entity):  # A Zone, Device or a UfhCircuit
                 f"for Parent {parent}: Actuator {self} must be {rules[SZ_ACTUATORS]}"
             )
 
+        if isinstance(self, Controller) and getattr(parent, "ctl", None) is not self:
+            raise exc.SystemSchemaInconsistent(  # it heads its own system
+                f"{self} is a controller: it cant be a child of {parent}"
+            )
+
         if isinstance(parent, Zone):
             if child_id != parent.idx:
                 raise TypeError(
